@@ -1,5 +1,5 @@
 (** Theorems of component [sched] (C15; row-system half of C05), collected. *)
-From HQ Require Export Base.Prelude Gen.Consts Sched.Model Sched.ProofsOrder Sched.Optimal Sched.Witness Sched.ProofsRows Sched.ProofsCuts Sched.ProofsTight.
+From HQ Require Export Base.Prelude Gen.Consts Sched.Model Sched.ProofsOrder Sched.Optimal Sched.Witness Sched.ProofsRows Sched.ProofsCuts Sched.ProofsTight Sched.ProofsExact.
 
 Lemma K1_refuted : exists I s d, refutes I s d VK1.
 Proof. exists k1_inst, k1_sol, k1_dispatch. exact k1_refutes. Qed.
